@@ -199,6 +199,17 @@ def step (s : Sys) (ws : List String) : Sys × String :=
       | some ch1 => (s, attempt ch1)
       | none => (s, r0)
     | _, _, _, _, _ => (s, "bad-op")
+  | ["wfault", i] =>
+    -- a save during which every write fails (disk full): `AtomicWriteFile` never commits, so the file is what it
+    -- was, and the error is returned
+    match i.toNat? with
+    | some _ => (s, s!"err f={showFile s.file}")
+    | none => (s, "bad-op")
+  | ["ffault", i] =>
+    -- the same through `sync_and_flush_to_disk` (which does nothing and reports Ok when cache writing is disabled)
+    match i.toNat? with
+    | some i => (s, s!"{if (getW s.ws i).disabled then "ok" else "err"} f={showFile s.file}")
+    | none => (s, "bad-op")
   | ["write", i] =>
     match i.toNat? with
     | some i => let s' := SafeNet.BootCache.step s (.write i); (s', s!"f={showFile s'.file}")
